@@ -9,6 +9,11 @@ Line kinds
   JS|id|p|<json [stage, ...]>            several exports in ONE process and ONE directory: every stage = {"pub": [...], "priv": [...],
                                          "cons": "..."} is appended to the trace through the same entry points and followed by prove();
                                          reply: id|ok|p|<json [{"trace": "pubs|privs|cons", "files": {name: hex}}, ...]>
+  JQ|id|p|<json {"pre": {name: hex}, "runs": [trace, ...]}>
+                                         a SEQUENCE of independent runs sharing ONE directory (what successive scripts started in the
+                                         same working directory do): `pre` = files that exist before the first run; before every run the
+                                         trace is cleared; after its prove() the directory is read, and the same trace is also exported
+                                         into a fresh empty directory; reply: id|ok|p|<json [{"trace", "files", "fresh"}, ...]>
 A file that prove() did not (re)write is simply absent from / unchanged in the reply: judging that is the check's business."""
 import sys, os, io, json, tempfile, shutil, contextlib
 sys.path.insert(0, os.path.dirname(os.path.abspath(__file__)))
@@ -93,6 +98,21 @@ def main():
                     for st in stages:
                         install(st.get("pub", []), st.get("priv", []), st.get("cons", ""))
                         res.append({"trace": trace_str(), "files": prove_in(d)})
+                finally:
+                    shutil.rmtree(d, ignore_errors=True)
+                out = f"{f[1]}|ok|{B.get_modulus()}|" + json.dumps(res)
+            elif f[0] == "JQ":         # independent runs one after the other in one directory, optionally over pre-existing files
+                spec = json.loads(line.rstrip("\n").split("|", 3)[3])
+                d = tempfile.mkdtemp(prefix="verif-prove-")
+                res = []
+                try:
+                    for name, hx in spec.get("pre", {}).items():
+                        with open(os.path.join(d, name), "wb") as fh:
+                            fh.write(bytes.fromhex(hx))
+                    for st in spec["runs"]:
+                        W.reset({"p": int(f[2])})
+                        install(st.get("pub", []), st.get("priv", []), st.get("cons", ""))
+                        res.append({"trace": trace_str(), "files": prove_in(d), "fresh": prove_here()})
                 finally:
                     shutil.rmtree(d, ignore_errors=True)
                 out = f"{f[1]}|ok|{B.get_modulus()}|" + json.dumps(res)
